@@ -621,6 +621,7 @@ func (e *Engine) nextEnvelope(ctx context.Context) (*Envelope, error) {
 		// Split out want-blocks, want-haves and DONT_HAVEs
 		blockCids := make([]cid.Cid, 0, len(nextTasks))
 		blockTasks := make(map[cid.Cid]*taskData, len(nextTasks))
+		tasksByCid := make(map[cid.Cid]*peertask.Task, len(nextTasks))
 		for _, t := range nextTasks {
 			c := t.Topic.(cid.Cid)
 			td := t.Data.(*taskData)
@@ -628,6 +629,7 @@ func (e *Engine) nextEnvelope(ctx context.Context) (*Envelope, error) {
 				if td.IsWantBlock {
 					blockCids = append(blockCids, c)
 					blockTasks[c] = td
+					tasksByCid[c] = t
 				} else {
 					// Add HAVES to the message
 					msg.AddHave(c)
@@ -653,6 +655,11 @@ func (e *Engine) nextEnvelope(ctx context.Context) (*Envelope, error) {
 				if t.SendDontHave {
 					msg.AddDontHave(c)
 				}
+				// The block is not sent: complete the task right away. While it
+				// stayed active its data (HaveBlock, IsWantBlock) made the task
+				// merger discard the NotifyNewBlocks task of the block coming back,
+				// and the want would stay on the ledger unserved.
+				e.peerRequestQueue.TasksDone(p, tasksByCid[c])
 			} else {
 				// Add the block to the message
 				// log.Debugf("  make evlp %s->%s block: %s (%d bytes)", e.self, p, c, len(blk.RawData()))
